@@ -24,8 +24,8 @@ RULE = (
     "Non-trivial = at least 10 contract evaluations inside the rectangle with |Z - 1| > 1e-3 "
     "(the gas is measurably non-ideal, so the equation is really exercised); distinct = hash."
 )
-MIN_NONTRIVIAL = {"quick": 80, "thorough": 1500}
-SHARDS = {"quick": 1, "thorough": 8}
+MIN_NONTRIVIAL = {"quick": 80, "thorough": 12000}
+SHARDS = {"quick": 1, "thorough": 16}
 GENERATOR = {"T_r": "[1.05, 3] incl. both ends", "p_r": "(0, 30] log- and linearly spaced", "T_pc": "-120..10 F", "p_pc": "550..760 psia"}
 ASSUMPTIONS = [
     "harness transcription of the published DAK coefficients (vf/refmodels/dak.py)",
@@ -61,7 +61,7 @@ def setup(ck):
 
 def generate(ck):
     rng = ck.rng
-    n = 110 if ck.tier == "quick" else 2400
+    n = 110 if ck.tier == "quick" else 20000
     descs = []
     for i in range(n):
         if i % 5 == 4:
@@ -187,6 +187,15 @@ def run_case(ck, desc):
                 if zp is not None and abs(zh / zp - 1) <= 0.05 and abs(dak.residual(zl_, Tr, pr, True)) <= 1e-8:
                     known = "K1-dak-first-coefficient"
                 ck.violation("hall-yarbrough-agrees-5%", detail, desc, known_key=known)
+    # the same isotherm again at a temperature that differs by a few parts per million, evaluated
+    # right afterwards: the result may not depend on what was evaluated before (every value is
+    # judged by the residual of the equation at ITS OWN temperature)
+    for eps in (3e-6, -7e-6):
+        T2 = (Tr * (1 + eps)) * (Tpc + 459.67) - 459.67
+        if 1.05 <= Tr * (1 + eps) <= 3.0:
+            for pr in desc["pr"][:6] + [30.0]:
+                z_factor_DAK(T2, pr * ppc, Tpc, ppc)
+            ck.count("near_duplicate_isotherm_evaluations", 7)
     n = judge_events(ck, desc)
     return n >= 10, {"Tr": Tr, "nonideal": n, "Z_at_max_pr": zs[30.0]}
 
